@@ -9,6 +9,15 @@ func ResolveExpressionType(module *Module, fn *Function, handle ExpressionHandle
 		return TypeResolution{}, fmt.Errorf("expression handle %d out of range (max %d)", handle, len(fn.Expressions))
 	}
 
+	// Types recorded by the lowerer (or an earlier resolution) are reused, so an
+	// expression DAG (let a1 = a0 + a0; let a2 = a1 + a1; ...) is resolved in
+	// linear rather than exponential time.
+	if int(handle) < len(fn.ExpressionTypes) {
+		if cached := fn.ExpressionTypes[handle]; cached.Handle != nil || cached.Value != nil {
+			return cached, nil
+		}
+	}
+
 	expr := fn.Expressions[handle]
 
 	switch kind := expr.Kind.(type) {
